@@ -38,9 +38,11 @@ def skeletons(tier):
                 for mem in (False, True):
                     out.append({"id": f"{w}-d{nd}-mem{int(mem)}", "host": w, "ndev": nd, "ranks": 1,
                                 "params": {"mem": mem, "dom": dom}})
-    if tier == "thorough":
-        for w in ["LY", "LL"]:
-            out.append({"id": f"r2-{w}-d2-mem1", "host": w, "ndev": 2, "ranks": 2, "params": {"mem": True, "dom": 3}})
+    # two ranks whose (symbolic) correlation ids may coincide: one rank's ids must not leak into the other's table
+    for w, mem in ([("LY", False), ("Y", True)] if tier == "quick" else [("LY", True), ("LY", False), ("LL", True), ("YW", False)]):
+        out.append({"id": f"r2-{w}-d2-mem{int(mem)}", "host": w, "ndev": 2, "ranks": 2, "params": {"mem": mem, "dom": 2}})
+        out.append({"id": f"r2rev-{w}-d2-mem{int(mem)}", "host": w, "ndev": 2, "ranks": 2,
+                    "params": {"mem": mem, "dom": 2, "order": [1, 0]}})
     return out
 
 
@@ -79,9 +81,9 @@ def run(ctx):
                                   + [(h[1], h[1] + h[2]) for h in H[r]])
     ta = ctx.open(events)
     mem = ctx.params["mem"]
-    ranks = list(range(sk["ranks"]))
+    ranks = list(ctx.params.get("order", range(sk["ranks"])))
     res = ta.get_cuda_kernel_launch_stats(ranks=ranks, include_memory_events=mem, visualize=False)
-    ctx.prove(sorted(res.keys()) == ranks, "one-table-per-rank", {"ranks": sorted(res.keys())})
+    ctx.prove(sorted(res.keys()) == sorted(ranks), "one-table-per-rank", {"ranks": sorted(res.keys())})
     anydelay = False
     for r in ranks:
         df = res[r]
